@@ -11,7 +11,9 @@
 //       r/w/b: Stdio::RawFd of a file opened here read-only / write-append / read-write; s<k>: the very same
 //       descriptor as stream k (k < this stream); x<fd>: that descriptor number as is (0-2 = the caller's own
 //       standard streams, which the spawn takes over and closes: they are saved and restored around the case)
-//   pre=<n> adds n succeeding pre-exec closures, prefail=<errno> one that returns Err(errno) (indices run on)
+//   pre=<n> adds n succeeding pre-exec closures, prefail=<errno> one that returns Err(errno), prenocode=1 one that returns an
+//   error without OS code, preyield=1 one that calls sched_yield and fails with its errno if that is refused (indices run on;
+//   every closure issues REPORT(K_PREEXEC, case, index, errno|-1|0) when it runs)
 //   inj=<scope>,<nr>,<k>,<ret>,<count> armed right before the next spawn   payload=<hex>
 //   wait2=1 (wait twice)  trywait=1 (poll try_wait)  holdstdin=1 (wait() is called while the Child still owns its
 //   stdin pipe: closing it is wait's job)  closefd=<0|1|2> (the caller's descriptor is closed for the following spawns
@@ -194,6 +196,8 @@ enum Op {
     Io(usize, Io),
     Pre(i64),
     PreFail(i64),
+    PreNoCode,
+    PreYield,
     Inj([i64; 5]),
     Payload(usize),
     Wait2(bool),
@@ -291,6 +295,8 @@ fn parse_line(line: &[u8]) -> Option<Line> {
             b"err" => c.ops.push(Op::Io(2, parse_io(v)?)),
             b"pre" => c.ops.push(Op::Pre(num(v)?)),
             b"prefail" => c.ops.push(Op::PreFail(num(v)?)),
+            b"prenocode" => c.ops.push(Op::PreNoCode),
+            b"preyield" => c.ops.push(Op::PreYield),
             b"inj" => {
                 let mut a = [0i64; 5];
                 let mut n = 0;
@@ -594,6 +600,38 @@ fn run_line(c: &Line, root_pid: i64, own_pgid: i64) {
                         msg: "c13 pre-exec closure",
                         code: Errno::new(code as i32),
                     })
+                });
+                unsafe {
+                    cmd.pre_exec(f);
+                }
+            }
+            Op::PreNoCode => {
+                // a closure failing with an error that carries no OS code (reported with code -1 in the marker)
+                let idx = st.closures;
+                st.closures += 1;
+                let f: Box<dyn FnMut() -> tiny_std::Result<()> + Send + Sync> = Box::new(move || {
+                    marker::report(K_PREEXEC, CUR_CASE.load(Ordering::Relaxed), idx, -1, 0);
+                    Err(Error::Uncategorized("c13 pre-exec closure without code"))
+                });
+                unsafe {
+                    cmd.pre_exec(f);
+                }
+            }
+            Op::PreYield => {
+                // a closure that issues a system call of its own (sched_yield) and fails with its errno when it is refused
+                let idx = st.closures;
+                st.closures += 1;
+                let f: Box<dyn FnMut() -> tiny_std::Result<()> + Send + Sync> = Box::new(move || {
+                    marker::report(K_PREEXEC, CUR_CASE.load(Ordering::Relaxed), idx, 0, 1);
+                    let r = unsafe { sys::sc6(24, 0, 0, 0, 0, 0, 0) };
+                    if r < 0 {
+                        Err(Error::Os {
+                            msg: "c13 pre-exec closure: sched_yield refused",
+                            code: Errno::new((-r) as i32),
+                        })
+                    } else {
+                        Ok(())
+                    }
                 });
                 unsafe {
                     cmd.pre_exec(f);
